@@ -20,6 +20,9 @@ class 10 transform / deriv / inverse called directly between two transform_1d_gr
          on one object; compositions of two and three transforms (stage by stage against the model, end to end against
          the 40-digit composite map).
 class 12 nodes on the ends of a strict sub-interval, one-node grids, reversed / shuffled nodes through the chains.
+class 2  (round 2 list, made systematic after a seeded change escaped): the grid argument's points as int64 / int32 / bool / float32, its weights
+         in those dtypes, read-only / strided / negative-stride arrays x every transform class x plain / InverseRTransform: correspondence with the
+         model at the float64 values, the 40-digit property check, and `c04_r3_dtype` (same answer as for the float64 copy of the grid).
 """
 import importlib
 import math
@@ -371,6 +374,70 @@ def c04_r3_methods(script, order, rt, OneDGrid):
             if not eq(back, fresh):
                 bad.append(("option-alternating", "%s: trim_inf switched and switched back: the answer differs from the first one" % name))
     return bad
+
+
+def c04_r3_dtype(script, rt, OneDGrid):
+    """The grid handed to transform_1d_grid holds its points / weights as int64 / int32 / bool / float32 / read-only / strided
+    arrays: the answer is the answer for the float64 copy of the same numbers (same acceptance, new points, new weights = |J| w,
+    new domain, sum of exp(-|r|) over the new grid), to 1e-12 (2e-5 where the nodes are float32: the map is evaluated in float32)."""
+    import numpy as np
+    spec, gs = script["tfs"][0], script["grids"][0]
+    plain = dict(gs, pdtype="float64", wdtype="float64", layout="plain")
+    name = "%s%s%r" % ("InverseRTransform of " if spec.get("inv") else "", spec["cls"], tuple(spec["ps"]))
+    what = "%s.transform_1d_grid(OneDGrid(points %r [%s], weights %r [%s], %r; %s))" % (
+        name, gs["points"], gs.get("pdtype", "float64"), gs["weights"], gs.get("wdtype", "float64"), gs["domain"], gs.get("layout", "plain"))
+
+    def run(g_spec):
+        try:
+            g = c04_build_grid(OneDGrid, g_spec)
+            before = (g.points.copy(), g.weights.copy(), g.points.dtype, g.weights.dtype)
+            h = c04_build_tf(rt, spec).transform_1d_grid(g)
+            same = (g.points.dtype == before[2] and g.weights.dtype == before[3] and np.array_equal(g.points, before[0], equal_nan=True)
+                    and np.array_equal(g.weights, before[1], equal_nan=True))
+            return "ok", h, same
+        except (ValueError, ZeroDivisionError, TypeError) as e:
+            return type(e).__name__, None, True
+    with np.errstate(all="ignore"):
+        t1, h, untouched = run(gs)
+        t0, ref, _ = run(plain)
+    bad = []
+    if not untouched:
+        bad.append(("dtype-input-modified", what + ": the caller's arrays were changed by the call"))
+    if t1 != t0:
+        return bad + [("dtype", what + ": %s; the float64 copy of the same grid: %s" % (t1, t0))]
+    if t1 != "ok":
+        return bad
+    rtol = 2e-5 if gs.get("pdtype") == "float32" else 1e-12
+
+    def close(a, b, scale):
+        a, b = float(a), float(b)
+        if a != a or b != b:
+            return a != a and b != b
+        if a == b:
+            return True
+        return abs(a - b) <= rtol * max(abs(a), abs(b), scale)
+    pscale = max([1.0] + [abs(float(p)) for p in spec["ps"]])
+    for i in range(ref.size):
+        if not close(h.points[i], ref.points[i], pscale):
+            bad.append(("dtype", what + ": new point %d is %r, for the float64 copy of the grid %r" % (i, float(h.points[i]), float(ref.points[i]))))
+            break
+    fin = [abs(float(v)) for v in ref.weights if float(v) == float(v) and abs(float(v)) < 1e300]
+    wscale = 1e-3 * max(fin) if fin else 0.0
+    for i in range(ref.size):
+        if not close(h.weights[i], ref.weights[i], wscale if rtol > 1e-9 else 0.0):
+            bad.append(("dtype", what + ": new weight %d is %r; r'(x) w computed on the float64 copy of the grid is %r (node %r, weight %r)"
+                        % (i, float(h.weights[i]), float(ref.weights[i]), gs["points"][i], gs["weights"][i])))
+            break
+    if not (close(h.domain[0], ref.domain[0], pscale) and close(h.domain[1], ref.domain[1], pscale)):
+        bad.append(("dtype", what + ": new domain %r, for the float64 copy %r" % (tuple(float(v) for v in h.domain), tuple(float(v) for v in ref.domain))))
+    keep = np.isfinite(ref.points) & np.isfinite(ref.weights) & np.isfinite(h.points) & np.isfinite(h.weights)
+    s1 = float(np.sum((np.exp(-np.abs(h.points.astype(float))) * h.weights)[keep]))
+    s0 = float(np.sum((np.exp(-np.abs(ref.points)) * ref.weights)[keep]))
+    sc = float(np.sum(np.abs(np.exp(-np.abs(ref.points)) * ref.weights)[keep]))
+    if not abs(s1 - s0) <= max(rtol, 1e-11) * max(sc, 1e-300) * 4:
+        bad.append(("dtype", what + ": sum of exp(-|r|) over the new grid = %r, over the new grid of the float64 copy %r" % (s1, s0)))
+    # (not judged: the dtype of the new arrays — IdentityRTransform hands the integer / bool array of points back as it is, the values are right)
+    return bad
 '''
 
 SNIPPET_R3 = """
@@ -668,6 +735,78 @@ def class9_scripts(rng):
     return out
 
 
+DTYPE_VARIANTS = ("int64-points", "int32-points", "bool-points", "float32-points", "int64-weights", "int32-weights", "bool-weights", "float32-weights",
+                  "int64-both", "readonly", "strided", "negstride")
+
+
+def dtype_scripts(rng):
+    """class 2 for the GRID handed to transform_1d_grid, systematically: every transform class, plain and through InverseRTransform, x the
+    dtype / container of points and weights.  Parameters are small integers (dyadic for Hyperbolic) so that integer nodes exist in the domain."""
+    m = M()
+    out = []
+    for cls in m.FINITE_TF + m.INF_TF:
+        for inv in (False, True):
+            ps = m._int_params(cls, rng)
+            if cls == "LinearFiniteRTransform":
+                ps = [ps[0], ps[0] + rng.choice([1, 5, 7])]        # odd width: the constant Jacobian (rmax - rmin)/2 is not an integer
+            trim = rng.random() < 0.5
+            spec = m._spec_tf(cls, ps, trim if cls in m.HAS_TRIM else False, inv, False, ["float"] * len(ps))
+            spec["ps"] = [float(p) for p in ps]
+            try:
+                tlo, thi = m._tf_domain(spec)
+            except (ValueError, ZeroDivisionError):
+                continue
+            lo = tlo
+            hi = thi if thi < 1e15 else tlo + 6.0
+            if cls == "HyperbolicRTransform" and not inv:
+                hi = min(hi, 0.5 / ps[1])          # below the pole 1/b
+            ints = list(range(int(math.ceil(lo)), int(math.floor(hi)) + 1))
+            for var in DTYPE_VARIANTS:
+                n = rng.choice([2, 3, 4])
+                wts = [round(rng.uniform(0.1, 1.0), 3) for _ in range(n)]
+                pts = sorted(round(rng.uniform(lo + 0.05 * (hi - lo), hi - 0.05 * (hi - lo)), 3) for _ in range(n))
+                if rng.random() < 0.5:
+                    pts = pts[::-1]
+                pd = wd = "float64"
+                layout = "plain"
+                if var in ("int64-points", "int32-points", "int64-both"):
+                    if not ints:
+                        continue
+                    pts = [ints[0], ints[-1]] + [rng.choice(ints) for _ in range(n - 2)] if len(ints) > 1 else [ints[0]] * n
+                    rng.shuffle(pts)
+                    pd = "int32" if var == "int32-points" else "int64"
+                    if var == "int64-both":
+                        wts, wd = [rng.choice([1, 2, 3]) for _ in range(n)], "int64"
+                elif var == "bool-points":
+                    cand = [v for v in (0, 1) if lo <= v <= hi]
+                    if not cand:
+                        continue
+                    pts, pd = [rng.choice(cand) for _ in range(n)], "bool"
+                    pts[0] = cand[-1]
+                elif var == "float32-points":
+                    pts, pd = [min(max(float(np.float32(p)), lo), hi) for p in pts], "float32"
+                    pts = [float(np.float32(p)) for p in pts]
+                    if any(p < lo or p > hi for p in pts):
+                        continue
+                elif var in ("int64-weights", "int32-weights"):
+                    wts, wd = [rng.choice([-1, 1, 2, 3]) for _ in range(n)], var.split("-")[0]
+                elif var == "bool-weights":
+                    wts, wd = [True] + [rng.random() < 0.6 for _ in range(n - 1)], "bool"
+                elif var == "float32-weights":
+                    wts, wd = [float(np.float32(w)) for w in wts], "float32"
+                else:
+                    layout = var
+                wts = wts[:len(pts)]
+                g = m._spec_grid([(bool(p) if pd == "bool" else p) for p in pts], wts, (lo, hi), pdtype=pd, wdtype=wd, layout=layout)
+                if pd == "bool":
+                    g["points"] = [int(p) for p in pts]
+                if wd == "bool":
+                    g["weights"] = [int(w) for w in wts]
+                out.append((f"grid-dtype:{'inverse:' if inv else ''}{cls}:{var}", {"tfs": [dict(spec)], "grids": [g], "calls": [[0, 0]]}))
+    return out
+
+
+
 # ----------------------------------------------------------------------------------------------------------------
 # correspondence
 # ----------------------------------------------------------------------------------------------------------------
@@ -755,6 +894,7 @@ def corr_r3(ctx: Ctx):
     mag, _, _ = magnitude_scripts(rng)
     m._corr_scripts(ctx, slack_scripts(rng) + plain + guard_scripts(rng) + allb + mag, label="r3")
     _corr_chains(ctx, chain_cases(rng, ctx.n(12, 120)))
+    m._corr_scripts(ctx, dtype_scripts(rng), label="r3")
 
 
 # ----------------------------------------------------------------------------------------------------------------
@@ -806,6 +946,20 @@ def _chains(ctx, chains):
                 print("DOES-NOT-FIT", cat, setup[0][1][:400])
             continue
         _report(ctx, cat, chain["tfs"][-1], bad, "c04_r3_chain(payload, rt, OneDGrid, HP, hp_call, mpmath)", chain)
+
+
+def _dtype(ctx, scripts):
+    m = M()
+    for cat, sc in scripts:
+        if len(sc["calls"]) != 1 or len(sc["tfs"]) != 1:
+            continue
+        try:
+            bad = _ns()["c04_r3_dtype"](sc, m.rt(), m.OneDGrid())
+        except ValueError:
+            ctx.tagc("oracle:r3:grid-dtype-inadmissible")
+            continue
+        ctx.tagc("oracle:r3:grid-dtype")
+        _report(ctx, cat, sc["tfs"][0], bad[:1], "c04_r3_dtype(payload, rt, OneDGrid)", sc)
 
 
 def oracle_r3(ctx: Ctx, budget: str):
@@ -868,6 +1022,11 @@ def oracle_r3(ctx: Ctx, budget: str):
             _report(ctx, "class9:" + cat, s["tfs"][0], sub[:1], call, s)
     # classes 10 / 12: compositions
     _chains(ctx, chain_cases(rng, 30 if large else 8))
+    # class 2 for the grid argument: dtype / container of points and weights, every class, plain and wrapped
+    dts = dtype_scripts(rng)
+    _dtype(ctx, dts)
+    m._oracle_scripts(ctx, dts if large else [d for d in dts if d[0].endswith("-points") or d[0].endswith("-both")] + pick([d for d in dts if not (d[0].endswith("-points") or d[0].endswith("-both"))], 40),
+                      label="r3", max_nodes=6)
 
 
 def oracle_at_r3(ctx: Ctx, failure):
@@ -885,6 +1044,7 @@ def oracle_at_r3(ctx: Ctx, failure):
         if one["calls"][0][0] != "edit":
             one = {"tfs": s["tfs"], "grids": [s["grids"][one["calls"][0][1]]], "calls": [[0, 0]]}
             _window(ctx, [("at-disagreement", one)])
+            _dtype(ctx, [("at-disagreement", one)])
     if failure.key == "OneDGrid.__init__" and w.get("ndim", 1) != 1 and "shape" in w:
         shape, dom = tuple(w["shape"]), (None if w.get("domain") is None else tuple(w["domain"]))
         try:
